@@ -24,7 +24,7 @@ extern "C" void nmtools_verif_event(int kind, long a, long b) {
     if (ev.size() < 64) ev.push_back({kind, a, b});
 }
 
-extern "C" const char* __asan_default_options() { return "detect_leaks=0:abort_on_error=0:exitcode=99:allocator_may_return_null=1:max_allocation_size_mb=2048"; }
+extern "C" const char* __asan_default_options() { return "detect_leaks=0:abort_on_error=0:exitcode=99:allocator_may_return_null=1:max_allocation_size_mb=2048:quarantine_size_mb=16:malloc_context_size=5"; }
 extern "C" const char* __ubsan_default_options() { return "print_stacktrace=1:halt_on_error=1:exitcode=98"; }
 
 
